@@ -13,24 +13,57 @@ Theorems are about the hand ports in `Model.lean` (tied to the Rust code by corr
 run); the same spec functions (`lineSpec`, `utf16Spec`, `posOf`) are what `judgeTag` evaluates on
 the real tags.
 
-Clause map
-* "line range = trimmed line containing the name, cut at the limit on a character boundary":
-  `line_range_spec`, `line_spec_bounds`; per tag through the cache: `cache_correct` (second component).
-* "UTF-16 column range = UTF-16 length of the line prefix and of the name": `cache_correct`,
-  `cache_reset_ok`, `cache_correct_utf16`, with `utf16_len_append_partial`, `utf16_spec_append`,
-  `utf16_len_eq_spec` for the length function.  Partial: well-formed UTF-8 and single-row names
-  (witnesses for both hypotheses; both are findings on the real code).
-* "every emitted tag … inside the text" / ignored placeholders: `drain_skips_ignored` for the repaired
-  drain, witness for the pinned one (finding).
-* queue (anchor `tag_queue`; not in the property's sentence but what keeps one tag per name node and
-  the documented order): `queue_insert_sorted`, `queue_sorted_dedup_partial`, `queue_lowest_pattern_wins`.
-* name ⊆ range ⊆ text, span = position of the name, docs, local filtering: no theorem — decided on
-  every real tag by the judge (`judgeTag`, `judgeDocs`) and by the correspondence of the full port.
+Clause map (property text of /verif/properties.jsonl, phrase by phrase).  Status: **proved** = ∀-theorem about the
+port, no hypothesis beyond well-formed inputs; **partial** = proved under the stated hypothesis (witness for dropping
+it in this file); **judged only** = no theorem, decided on every real tag by the Lean judge.  EVERY theorem speaks
+about the hand ports of `Model.lean`; the ports are tied to tags.rs / c_lib.rs / LossyUtf8 by correspondence on the
+explored inputs (sampled), never by proof.
+
+1. "Every emitted tag has its name range inside its tag range inside the text" —
+   `tag_ranges_and_span` (**partial**: assumes every capture of every match is a node range of the text,
+   `sb ≤ eb ≤ |src|` — a property of the parse tree, C02): every tag the loop emits is an ignore placeholder or has
+   `range.s ≤ name.s ≤ name.e ≤ range.e ≤ |src|`.  The tag range is the HULL of tag node and name node, so no
+   "ancestor-or-equal" assumption is needed.  Placeholders: `drain_skips_ignored` (**proved** for the repaired
+   drain: none is emitted).  Judge clause `range` / `ignored-emitted` on every real tag.
+2. "a line range that is the trimmed line containing the name (cut at the length limit on a character boundary)" —
+   `line_range_spec` (**partial**: the row has a non-blank byte; implied by a non-blank name start; witness: all-blank
+   row), `line_spec_bounds` (**proved**), `line_range_char_boundary` (**partial**: the row is well-formed UTF-8 — for an
+   ill-formed row "character boundary" is the end of the longest well-formed prefix, by definition of `lineSpec`),
+   `line_range_contains_name_start` (**partial**: name start non-blank and inside the untrimmed cut);
+   that a tag carries the line range of ITS OWN row: `cache_correct`, second component (**partial**: single-row
+   names; witness = finding C18-cache-after-multirow-name, repaired).  GAP: the row start is taken as
+   `name.start − column`, i.e. the name node's column is trusted (see 3).  Judge clause `line`.
+3. "a row/column span equal to the name's position" — `tag_ranges_and_span` (**partial**: assumes the points of
+   each capture are the row/column of its bytes, `sp = posOf src sb`, `ep = posOf src eb` — tree/text consistency,
+   C02/C10): `span = posOf name.start .. posOf name.end`.  The port copies the name node's points, so without that
+   assumption the clause is **judged only** (`span`, recomputed from the text).
+4. "a UTF-16 column range equal to the UTF-16 length of the line prefix and of the name" — `cache_correct`,
+   `cache_reset_ok`, `cache_correct_utf16_fixed`, `utf16_column_prefix` (**partial**: names start and end at character
+   boundaries of a well-formed row prefix — intrinsic, a cut inside an ill-formed part is not additive even for the
+   spec — and single-row names); length function: `utf16_len_fixed_eq_spec`, `utf16_len_append` (**proved**, repaired
+   `LossyUtf8`), `utf16_len_valid_prefix` (**proved**), `utf16_len_append_partial` (pinned code, **partial** with
+   counterexamples).  GAP: `cacheFold` models the sequence of `prev_line_info` updates for single-row names; that the
+   loop feeds the cache exactly with the non-omitted tags, and the repaired branch `prev := none` after a multi-row
+   name, are covered by correspondence and judge only.  Judge clause `utf16`.
+5. "Docs are the text of the captured doc nodes after the configured stripping" — `docs_spec`, `docs_select_spec`,
+   `docs_chain_maximal` (**proved**, for every strip FUNCTION).  GAP: the regex → function step (Rust `regex`) is a
+   parameter; the two regex shapes of the check's queries are tied by correspondence only.  Which match's docs a
+   name node gets: `queue_lowest_pattern_wins`, `queue_lowest_within_residence` (**proved**),
+   `queue_lowest_pattern_run_partial` (**partial**: arrival order).  Judge clause `docs`.
+6. "names that resolve to a local definition in an enclosing scope are omitted where the query asks for it" —
+   `local_filter_spec`, `local_filter_iff` (**proved**), `record_def_spec`, `record_scopes_shape` (**proved**).
+   Reading fixed by the code: "enclosing" = range containment, innermost = most recently pushed, walking outwards
+   stops after the first scope that does not inherit; "where the query asks" = `(#is-not? local)` on the pattern
+   (re-derived by the harness, correspondence only).  Judge clause `local`.
+Not in the property's sentence but anchored: queue order/dedup — `queue_insert_sorted`, `queue_batches_sorted`,
+`queue_emitted_are_arrivals`, `queue_sorted_of_no_late`, `no_late_of_arrival_order`, `queue_sorted_dedup_partial`
+(global order is FALSE without a hypothesis: known finding C18-late-match-duplicate); kinds / `is_definition`:
+**judged only** (`kind`) + correspondence of the ported `mkCfg`.
 
 Boundary conventions the English leaves open (read off the code, see `lineSpec`): whitespace = ASCII
 space/TAB/LF/FF/CR; limit 180 bytes; a row not newline-terminated within the limit is cut at its first
 ill-formed byte even if shorter than the limit; ill-formed UTF-8 counts one U+FFFD per maximal
-ill-formed subpart (`utf16Spec`).
+ill-formed subpart (`utf16Spec`); doc adjacency = END row of the earlier node + 1 ≥ START row of the later one.
 -/
 set_option linter.unusedSimpArgs false
 namespace TsVerif.C18
@@ -607,5 +640,32 @@ theorem line_range_contains_name_start (text : Bytes) (startByte col limit b : N
 /-- Non-vacuity: `  é = foo(1);` — the name `foo` starts at byte 7, column 7. -/
 example : lineRange [32, 32, 0xC3, 0xA9, 32, 61, 32, 102, 111, 111, 40, 49, 41, 59] 7 7 180 = ⟨2, 14⟩ := by
   simp [lineRange, isWs, scan, stepAt, width, units, isCont]
+
+/-- **tag_ranges_and_span.**  ASSUMING every capture of every match is a node of the text (`sb ≤ eb ≤ |src|`) whose
+points are the row/column of its bytes (`posOf`) — properties of the parse tree the tags code takes for granted —
+every tag emitted by the whole loop is an ignore placeholder or satisfies
+`range.s ≤ name.s ≤ name.e ≤ range.e ≤ |src|` and `span = posOf name.s .. posOf name.e`. -/
+theorem tag_ranges_and_span (v : Variant) (cfg : Cfg) (src : Bytes) (ms : List Mat)
+    (hcaps : ∀ m ∈ ms, ∀ c ∈ m.caps, c.sb ≤ c.eb ∧ c.eb ≤ src.length ∧ c.sp = posOf src c.sb ∧ c.ep = posOf src c.eb) :
+    ∀ t ∈ runTags v cfg src ms, t.isIgnored = true ∨
+      (t.range.s ≤ t.name.s ∧ t.name.s ≤ t.name.e ∧ t.name.e ≤ t.range.e ∧ t.range.e ≤ src.length ∧
+       t.spanS = posOf src t.name.s ∧ t.spanE = posOf src t.name.e) := by
+  intro t ht
+  obtain ⟨hmap, harr⟩ := queue_emitted_are_arrivals v cfg src ms
+  rw [hmap, List.mem_map] at ht
+  obtain ⟨e, he, rfl⟩ := ht
+  obtain ⟨m, hm, st', pv, htag⟩ := arrivals_from_tagOf v cfg src ms (initSt src) e (harr e he)
+  rcases tagOf_shape v cfg src _ m st' e.1 pv htag with hi | ⟨nameC, hn, tagC, htc, h1, h2, h3, h4⟩
+  · exact Or.inl hi
+  · right
+    obtain ⟨n1, n2, n3, n4⟩ := hcaps m hm nameC hn
+    obtain ⟨t1, t2, _, _⟩ := hcaps m hm tagC htc
+    rw [h1, h2, h3, h4]
+    simp only
+    refine ⟨by omega, n1, by omega, by omega, n3, n4⟩
+
+/-- Non-vacuity: the test matches `wm` are such captures for a one-row text of 40 bytes without newline. -/
+example : ∀ c ∈ (wm 4 7).caps, c.sb ≤ c.eb ∧ c.eb ≤ (List.replicate 40 97).length ∧
+    c.sp = posOf (List.replicate 40 97) c.sb ∧ c.ep = posOf (List.replicate 40 97) c.eb := by decide
 
 end TsVerif.C18
